@@ -94,27 +94,36 @@ theorem patchDate_roundtrip (secs off : Int) (h : dateOK secs off = true) :
 
 /-! ### fields -/
 
-/-- the domain on which the fields survive: a testament sha1 is given, there is a merge
-source, and the date is in the timestamp's domain -/
-def fieldsOK (d : Directive Fields) : Bool :=
-  d.fields.testamentSha1.isSome ∧ (d.fields.sourceBranch.isSome ∨ d.bundle.isSome) ∧
+/-- the domain on which the fields survive: a testament sha1 is given (not needed by the
+tolerant variant), there is a merge source, and the date is in the timestamp's domain -/
+def fieldsOKV (tolerant : Bool) (d : Directive Fields) : Bool :=
+  (tolerant ∨ d.fields.testamentSha1.isSome) ∧ (d.fields.sourceBranch.isSome ∨ d.bundle.isSome) ∧
     dateOK d.fields.time d.fields.timezone
 
-theorem fields_roundtrip (f : Fields) (hasBundle : Bool) (ht : f.testamentSha1.isSome = true)
+def fieldsOK (d : Directive Fields) : Bool := fieldsOKV false d
+
+theorem fields_roundtrip (tolerant : Bool) (f : Fields) (hasBundle : Bool)
+    (ht : tolerant = true ∨ f.testamentSha1.isSome = true)
     (hsrc : f.sourceBranch.isSome = true ∨ hasBundle = true) (hd : dateOK f.time f.timezone = true) :
-    ∃ st, toPairs f = .ok st ∧ fromPairs st hasBundle = .ok f := by
+    ∃ st, toPairs f = .ok st ∧ fromPairsV tolerant st hasBundle = .ok f := by
   obtain ⟨ts, hf, hp⟩ := patchDate_roundtrip f.time f.timezone hd
   obtain ⟨rid, sha, time, tz, tb, src, msg, bid⟩ := f
   simp only at hf hp hsrc ht
+  simp only [toPairs, hf]
+  refine ⟨_, rfl, ?_⟩
   cases sha with
-  | none => simp at ht
-  | some sha =>
-    simp only [toPairs, hf]
-    refine ⟨_, rfl, ?_⟩
+  | none =>
+    have htol : tolerant = true := by simpa using ht
     cases src with
     | none =>
       have hb : hasBundle = true := by simpa using hsrc
-      cases msg <;> simp [fromPairs, lookup, hp, hb]
-    | some s => cases msg <;> simp [fromPairs, lookup, hp]
+      cases msg <;> simp [fromPairsV, lookup, hp, hb, htol]
+    | some s => cases msg <;> simp [fromPairsV, lookup, hp, htol]
+  | some sha =>
+    cases src with
+    | none =>
+      have hb : hasBundle = true := by simpa using hsrc
+      cases msg <;> simp [fromPairsV, lookup, hp, hb]
+    | some s => cases msg <;> simp [fromPairsV, lookup, hp]
 
 end BreezyVerif.C40
